@@ -26,14 +26,14 @@ func main() {
 	r := lib.Rand("c11")
 	progs, cases := 3, 50
 	if lib.Thorough() {
-		progs, cases = 8, 100
+		progs, cases = 6, 80
 	}
 	rep.Extra["programs"] = progs
 	rep.Extra["cases_per_program"] = cases
 	start := time.Now()
 	budget := 110 * time.Second // after this much wall time no further program is started (the first always runs)
 	if lib.Thorough() {
-		budget = 25 * time.Minute
+		budget = 10 * time.Minute
 	}
 	for pi := 0; pi < progs; pi++ {
 		if pi > 0 && time.Since(start) > budget {
